@@ -626,7 +626,7 @@ def empty_group_key(case, res_area2=None, exp_area2=None):
                   and any(g['et'] == 0 and any(p for p in g['paths']) for g in case['groups']))
     pre_delta = has_empty_polygon_group_before(case) and case['delta'] < 0
     if pre_orient and pre_delta and res_area2 is not None:
-        want_neg = (exp_area2 < 0) if exp_area2 is not None else (not case.get('rev'))
+        want_neg = (exp_area2 < 0) if exp_area2 else (not case.get('rev'))     # (nothing expected: the input decides)
         lost = (res_area2 >= 0) if want_neg else (res_area2 <= 0)
         return 'offset.orientation-lost.empty-polygon-group-first' if lost else 'offset.delta-abs-leak.empty-polygon-group'
     if pre_orient:
